@@ -39,6 +39,17 @@ func verifDir() string {
 	return "/verif"
 }
 
+// evidenceDir is /verif/evidence unless RV_EVIDENCE_DIR redirects it (used when
+// the checks are run against a deliberately broken tree, so that the committed
+// evidence of the unchanged tree is not overwritten).
+func evidenceDir() string {
+	if d := os.Getenv("RV_EVIDENCE_DIR"); d != "" {
+		os.MkdirAll(d, 0o755)
+		return d
+	}
+	return verifDir() + "/evidence"
+}
+
 func loadKnown() {
 	b, err := os.ReadFile(verifDir() + "/known_findings.json")
 	if err != nil {
